@@ -20,6 +20,7 @@ Definition obs_res (r : res) : obs :=
   | RPairs l => OList (map obs_pair l)
   | RBadTarget => OTag "BadTarget"
   | RNat n => OInt (Z.of_nat n)
+  | ROutOfFuel => OTag "OutOfFuel"
   end.
 (* what is read back from every object at the end: list(h), list(h.get_all()) *)
 Definition dump (ks : list text) (ps : list (text * text)) : obs :=
